@@ -24,6 +24,7 @@ import Driver.Ledger
 import Driver.Meta
 import Driver.Ieee
 import Driver.Dwvw
+import Driver.Small1
 open Sf
 
 def lawOf (s : String) : Option G711.Law :=
@@ -93,4 +94,5 @@ def main (args : List String) : IO UInt32 := do
   | "meta" :: rest => do MetaCmd.run rest (← readLines)
   | "ieee" :: rest => Driver.Ieee.cmd rest
   | "dwvw" :: rest => Driver.Dwvw.cmd rest
+  | "small1" :: rest => Driver.Small1.cmd rest
   | _ => IO.eprintln "usage: sfmodel <g711|...> ..."; return 2
